@@ -12,6 +12,10 @@ def spec(tier):
             for i in range(n, 4):
                 fixed[f"a{i}"] = 0
             obs.append(CH(name=f"protocol_tps{tps}_n{n}", harness="c14.trace_protocol", sym=sym, fixed=fixed, timeout=900))
+    # a replay after another replay in the same process that stopped before its trace was exhausted
+    for tps in ((1, 2, 4) if th else (2,)):
+        obs.append(CH(name=f"protocol_after_other_trace_tps{tps}", harness="c14.trace_protocol",
+                      sym=dict(a0=I(0, 5), a1=I(0, 5), R=I(0, 6), pa=I(0, 5), pr=I(0, 5)), fixed=dict(tps=tps, n=2, a2=0, a3=0), timeout=900))
     obs.append(twin("protocol_same_tick", "c14.trace_protocol", dict(a0=I(0, 7), a1=I(0, 7), R=I(0, 8)), dict(tps=2, n=2, a2=0, a3=0), "same_tick"))
     obs.append(twin("protocol_after_end", "c14.trace_protocol", dict(a0=I(0, 7), a1=I(0, 7), R=I(0, 8)), dict(tps=2, n=2, a2=0, a3=0), "after_end"))
     # gentrace round trip at exact tick rates (the generator's own numpy stream, several seeds)
